@@ -114,14 +114,15 @@ def rule_name_guards(ctx: Ctx):
             if isinstance(n, ast.ListComp) and any("getattr" in norm(i) for g in n.generators for i in g.ifs):
                 found = True
                 conds = " and ".join(norm(i) for g in n.generators for i in g.ifs)
-                esc = "re.escape(value)" in norm(n.elt)
-                ok = "is_valid_name(value)" in conds and "value := getattr" in conds and esc
+                W = next((x.target.id for g in n.generators for i in g.ifs for x in ast.walk(i) if isinstance(x, ast.NamedExpr)), "value")
+                esc = f"re.escape({W})" in norm(n.elt)
+                ok = f"is_valid_name({W})" in conds and f"{W} := getattr" in conds and esc
                 ctx.ob("R-C19-4", f"find.{name}/name-guard", ok,
                        f"a pattern alternative is built from a party / resolved name only if the value is truthy and passes is_valid_name, and it is "
                        f"re.escape()d (conditions `{conds[:90]}`, escaped={esc})", node=n, mod=fm)
                 sites.append(("comp", ok))
             # statement form: regexes.append(...) in a loop with `continue` guards
-            if isinstance(n, ast.Call) and isinstance(n.func, ast.Attribute) and n.func.attr == "append" and "regex" in norm(n.func.value) and n.args \
+            if isinstance(n, ast.Call) and isinstance(n.func, ast.Attribute) and n.func.attr == "append" and n.args \
                     and "?P<" in norm(n.args[0]):
                 found = True
                 st = stmt_of(n)
@@ -130,10 +131,11 @@ def rule_name_guards(ctx: Ctx):
                     loop = getattr(loop, "parent", None)
                 guards, cnt = guards_of(enumerate_paths(loop.body), st) if loop is not None else ([], 0)
                 texts = [(norm(c), o) for c, o in guards]
-                valid = any(c == "is_valid_name(value)" and o for c, o in texts)
-                truthy = any("value := getattr" in c and o for c, o in texts)
+                W = next((x.target.id for c_, _ in guards for x in ast.walk(c_) if isinstance(x, ast.NamedExpr)), "value")
+                valid = any(c == f"is_valid_name({W})" and o for c, o in texts)
+                truthy = any(f"{W} := getattr" in c and o for c, o in texts)
                 # the value is escaped before it is interpolated
-                esc = any(isinstance(s, ast.Assign) and norm(s.targets[0]) == "value" and "re.escape(value" in norm(s.value) for s in stmts_local(loop.body)) if loop else False
+                esc = any(isinstance(s, ast.Assign) and norm(s.targets[0]) == W and f"re.escape({W}" in norm(s.value) for s in stmts_local(loop.body)) if loop else False
                 ok = valid and truthy and esc
                 ctx.ob("R-C19-4", f"find.{name}/name-guard", ok,
                        f"a pattern alternative is built from a name only under truthiness and is_valid_name, after re.escape (guards {texts}, escaped={esc})",
@@ -177,13 +179,19 @@ def rule_rebasing(ctx: Ctx):
     if offv:
         O = offv[0]
         ctor = [n for n in walk_local(fn) if isinstance(n, ast.Call) and dotted(n.func) in ("ReferenceCitation", "CaseReferenceToken")]
+        # the two names unpacked from <match>.span()
+        SP = next(([norm(e) for e in s_.targets[0].elts] for s_ in stmts_local(fn.body) if isinstance(s_, ast.Assign) and isinstance(s_.targets[0], ast.Tuple)
+                   and len(s_.targets[0].elts) == 2 and isinstance(s_.value, ast.Call) and isinstance(s_.value.func, ast.Attribute) and s_.value.func.attr == "span"
+                   and not s_.value.args), ["?", "?"])
+        A, B = SP
         bad = []
         nchk = 0
         for c in ctor:
             for kw in c.keywords:
                 if kw.arg in ("start", "end", "span_start", "span_end", "full_span_start", "full_span_end"):
                     nchk += 1
-                    if norm(kw.value) not in (f"start + {O}", f"end + {O}", f"{O} + start", f"{O} + end"):
+                    want = (f"{A} + {O}", f"{O} + {A}") if kw.arg.endswith("start") else (f"{B} + {O}", f"{O} + {B}")
+                    if norm(kw.value) not in want:
                         bad.append(f"{kw.arg}={norm(kw.value)}")
         ctx.ob("R-C19-5", "find.extract_pincited_reference_citations/offsets-rebased", not bad and nchk >= 6,
                f"every offset of a reference found in the slice is rebased by the slice origin ({nchk} offsets; not rebased: {bad})", node=fn, mod=fm)
@@ -207,7 +215,9 @@ def rule_rebasing(ctx: Ctx):
     ctx.ob("R-C19-5", "find.find_reference_citations_from_markup/scans-from-origin", oks and origin is not None,
            f"the style-tag pattern is run over markup_text[{origin}:]", node=scans[0] if scans else fn, mod=fm)
     back = [n for n in walk_local(fn) if isinstance(n, ast.Call) and norm(n.func).endswith("markup_to_plain.update")]
-    okb = len(back) >= 4 and all(norm(b.args[0]).startswith(f"{origin} + match.") for b in back)
+    MV = next((n.target.id for n in walk_local(fn) if isinstance(n, ast.For) and isinstance(n.target, ast.Name) and isinstance(n.iter, ast.Call)
+               and (dotted(n.iter.func) or "").endswith("finditer")), "match")
+    okb = len(back) >= 4 and all(norm(b.args[0]).startswith(f"{origin} + {MV}.") for b in back)
     sides = {}
     for s in stmts_local(fn.body):
         if isinstance(s, ast.Assign) and isinstance(s.value, ast.Call) and norm(s.value.func).endswith("markup_to_plain.update"):
@@ -241,11 +251,12 @@ def rule_append_order(ctx: Ctx, rule="R-C19-7"):
         ctx.ob(rule, "find.get_citations/loop", False, "main loop not found", node=gc, mod=fm)
         return
     loop = loops[0]
-    L = None
-    for n in walk_local(loop):
-        if isinstance(n, ast.Call) and isinstance(n.func, ast.Attribute) and n.func.attr == "append" and len(n.args) == 1 and norm(n.args[0]) == "citation":
-            L = norm(n.func.value)
-    ok, n_app, why = L is not None, 0, "no `citations.append(citation)`"
+    L = CV = None
+    for st in loop.body:  # the append is a top-level statement of the loop body
+        if isinstance(st, ast.Expr) and isinstance(st.value, ast.Call) and isinstance(st.value.func, ast.Attribute) and st.value.func.attr == "append" \
+                and len(st.value.args) == 1 and isinstance(st.value.args[0], ast.Name) and isinstance(st.value.func.value, ast.Name):
+            L, CV = st.value.func.value.id, st.value.args[0].id
+    ok, n_app, why = L is not None, 0, "no top-level `<list>.append(<citation>)` in the loop"
     for p in enumerate_paths(loop.body):
         ops = []
         for ev in p.events:
@@ -253,14 +264,15 @@ def rule_append_order(ctx: Ctx, rule="R-C19-7"):
                 for n in ast.walk(ev[1]):
                     if isinstance(n, ast.Call) and isinstance(n.func, ast.Attribute) and norm(n.func.value) == L and n.func.attr in ("append", "extend", "insert"):
                         ops.append(n.func.attr + ":" + norm(n.args[0])[:20])
-        if any(o == "append:citation" for o in ops):
+        tag = f"append:{CV}"[:27]
+        if any(o == tag for o in ops):
             n_app += 1
-            if ops[-1] != "append:citation" or ops.count("append:citation") != 1:
+            if ops[-1] != tag or ops.count(tag) != 1:
                 ok, why = False, f"list operations in one iteration: {ops}"
         elif ops:
             ok, why = False, f"an iteration extends the list without appending its citation: {ops}"
     ctx.ob(rule, "find.get_citations/current-citation-appended-last", ok and n_app > 0,
-           f"in each iteration the reference citations found for a full citation are added before it and `{L}.append(citation)` is the last list "
+           f"in each iteration the reference citations found for a full citation are added before it and `{L}.append({CV})` is the last list "
            f"operation ({n_app} paths)" if ok else why, node=loop, mod=fm)
 
 
